@@ -123,7 +123,8 @@ def norm(t):
         if t[1] == "+":
             return x
         if t[1] == "not":
-            if x[0] == "cmp" and x[1] in _NEG:
+            # exact negations only: `not (a < b)` is not `b <= a` for NaN operands
+            if x[0] == "cmp" and x[1] in ("==", "!=", "is", "is not", "in", "not in"):
                 return norm(("cmp", _NEG[x[1]], x[2], x[3]))
             if x[0] == "unary" and x[1] == "not":
                 return x[2]
